@@ -57,16 +57,26 @@ JudgeBead(e) ==
                ELSE MeanOk(e.cwon, e.cons, e.isnan, e.pf) IN
   IF first # "ok" THEN first ELSE WrittenOk(e, e.isnan, e.pf)
 
+(* The input of run b is the input of run a moved rigidly BY THE HARNESS (exactly: integers of 0.001 A), so the particle of run b
+   has to be the moved particle of run a whatever happened in between.  When the atoms handed to DoAverageBead in run b are not
+   the moved atoms of run a, something between reading and averaging treated the two inputs differently: if the particle then
+   does not follow the motion either, that is the statement's "follows any rigid motion of the input exactly" broken; if it
+   does, the pair stays unjudged (the model mean cannot be compared). *)
+Follows(e) ==
+  LET moved == WMove([perm |-> e.m.perm, sg |-> e.m.sg, sh |-> <<e.m.sh[1] * 1000, e.m.sh[2] * 1000, e.m.sh[3] * 1000>>], e.a.pf)
+  IN e.a.isnan = e.b.isnan
+     /\ (e.a.isnan \/ \A d \in 1..3 : e.b.pf[d] - moved[d] <= 2 * TolMean /\ moved[d] - e.b.pf[d] <= 2 * TolMean)
+
 JudgePair(e) ==
-  IF ~WMoved(e.m, e.a.cons, e.b.cons) THEN "unjudged:constituents-are-not-the-moved-ones"
+  IF ~WMoved(e.m, e.a.cons, e.b.cons)
+  THEN (IF Follows(e) THEN "unjudged:constituents-are-not-the-moved-ones"
+        ELSE "atoms-averaged-are-not-the-moved-input-and-the-particle-does-not-follow-the-motion")
   ELSE LET ma == WMean(e.cwon, e.a.cons)
            mb == WMean(e.cwon, e.b.cons)
-           moved == WMove([perm |-> e.m.perm, sg |-> e.m.sg, sh |-> <<e.m.sh[1] * 1000, e.m.sh[2] * 1000, e.m.sh[3] * 1000>>], e.a.pf)
        IN IF ~WEquivariant(e.m, ma, mb) THEN "model-mean-not-equivariant"
           ELSE IF e.a.isnan # e.b.isnan THEN "undefined-in-one-run-only"
           ELSE IF e.a.isnan THEN "ok"
-          ELSE IF \E d \in 1..3 : e.b.pf[d] - moved[d] > 2 * TolMean \/ moved[d] - e.b.pf[d] > 2 * TolMean
-               THEN "position-does-not-follow-the-rigid-motion"
+          ELSE IF ~Follows(e) THEN "position-does-not-follow-the-rigid-motion"
           ELSE "ok"
 
 \* bridge: the synthetic particles through both operators
